@@ -16,7 +16,7 @@ def one(d):
             return d, None
         fired = {}
         for p in ALL:
-            c = subprocess.run(["/verif/check", p, "--repo", s], capture_output=True, text=True, env=dict(os.environ, SM9_CONTROL_RUN="1"))
+            c = subprocess.run(["/verif/check", p, "--repo", s], capture_output=True, text=True, env=dict(os.environ, SM9_CONTROL_RUN="1", SM9_CACHE_KEEP="80"))
             if c.returncode == 1:
                 fired[p] = [l.strip()[:200] for l in c.stdout.splitlines() if l.startswith("  " + p + ":") or l.startswith("  eq:") or l.startswith("  R-")][:3]
             elif c.returncode != 0:
@@ -32,6 +32,6 @@ def one(d):
 dirs = sorted(glob.glob("/verif/seeded/*/"))
 if len(sys.argv) > 1:
     dirs = [d for d in dirs if any(a in d for a in sys.argv[1:])]
-with ThreadPoolExecutor(max_workers=3) as ex:
+with ThreadPoolExecutor(max_workers=6) as ex:
     for d, f in ex.map(one, dirs):
         print(os.path.basename(d.rstrip("/")), f)
